@@ -1,5 +1,5 @@
 //verif:pkg internal/spynode
-//verif:kit memstore nodekit
+//verif:kit memstore nodekit interleave
 package spynode
 
 // C04 — merkle proofs on confirmations; bad-merkle blocks are refused.
@@ -7,6 +7,7 @@ package spynode
 import (
 	"context"
 	"crypto/sha256"
+	"time"
 
 	"github.com/tokenized/pkg/bitcoin"
 	"github.com/tokenized/pkg/wire"
@@ -264,4 +265,73 @@ func VerifHarness_C04_proofs() {
 		verifrt.Assert(isRel, "C04.confirmation.only-relevant-txs")
 	}
 	verifrt.Reach("C04.proofs.done")
+}
+
+
+// VerifHarness_C04_race: the body of a relevant transaction is being processed by the
+// transaction-processing goroutine when the block that contains it is processed by the block
+// processor: at the interleaving point inside processUnconfirmedTx (after the mempool has recorded
+// the transaction, before the relevance filter and the unconfirmed repository) the whole
+// ProcessBlock runs.  Whatever the order, the transaction is included in a processed block, so a
+// notification for it must carry a merkle proof.
+func VerifHarness_C04_race() {
+	ctx := context.Background()
+	k, err := vkNewNode(ctx, nil)
+	verifrt.Assert(err == nil, "C04.kit.node-loads")
+	node, rec := k.node, k.rec
+	node.state.SetInSync()
+	t := vkTx(45, []int{11}, true)
+	other := vkTx(46, []int{12}, verifrt.Choose("other.relevant", 2) == 1)
+	txid := *t.TxHash()
+	block := vkBlock(*node.blocks.LastHash(), 1, []*wire.MsgTx{other, t})
+	processed := false
+	var berr error
+	order := verifrt.Choose("order", 3) // 0: tx fully first, 1: block first, 2: block at the interleaving point
+	serialised := false
+	vkInterleave = func(point string) {
+		if order == 2 && !processed {
+			// the block processor is scheduled here; if it has to wait for a lock the transaction
+			// step holds, it runs after that step instead
+			serialised = verifrt.RunUntilBlocked(func() {
+				berr = node.ProcessBlock(ctx, block)
+				processed = true
+			})
+			verifrt.Reach("C04.race.interleaved")
+		}
+	}
+	defer func() { vkInterleave = nil }()
+	if order == 1 {
+		processed = true
+		berr = node.ProcessBlock(ctx, block)
+	}
+	perr := node.processUnconfirmedTx(ctx, handlers.TxData{Msg: t, Trusted: true, ConfirmedHeight: -1})
+	vkInterleave = nil
+	if serialised && !verifrt.Symbolic() {
+		time.Sleep(150 * time.Millisecond) // natively the waiting block processor proceeds by itself
+	}
+	if !processed {
+		berr = node.ProcessBlock(ctx, block)
+	}
+	verifrt.Sig("race", order, "errors")
+	verifrt.Assert(perr == nil && berr == nil, "C04.race.both-steps-succeed")
+	news, withProof := 0, 0
+	for _, e := range rec.events {
+		if e.txid != txid {
+			continue
+		}
+		if e.kind == "tx" {
+			news++
+		}
+		if (e.kind == "tx" || e.kind == "update") && e.hasProof {
+			withProof++
+			p := e.state.MerkleProof
+			verifrt.Sig("race", order, "proof")
+			verifrt.Assert(p.IsValid(txid) == nil && int(p.Index) == 2 && e.state.UnconfirmedDepth == 0, "C04.race.proof-is-valid")
+		}
+	}
+	verifrt.Sig("race", order, "new")
+	verifrt.Assert(news == 1, "C04.race.delivered-as-new-exactly-once")
+	verifrt.Sig("race", order, "confirmation")
+	verifrt.Assert(withProof >= 1, "C04.race.relevant-tx-of-a-processed-block-gets-a-notification-with-a-proof")
+	verifrt.Reach("C04.race.done")
 }
